@@ -28,6 +28,7 @@ type Call struct {
 	Thresh uint16     // S
 	Bg     [][]uint16 // S: copy of the background passed (nil if nil)
 	Ev     int        // index of the event during which the call was made
+	St     cptvframe.Telemetry // W: telemetry of the frame as the sink saw it
 }
 
 // Event is one input of a world-A history together with everything observed
@@ -146,7 +147,7 @@ func (s *Sink) StartRecording(bg *cptvframe.Frame, thresh uint16) error {
 }
 
 func (s *Sink) WriteFrame(f *cptvframe.Frame) error {
-	return s.rec(Call{Op: 'W', ID: f.Status.FrameCount, Sum: SumPix(f.Pix), Err: s.fail('W')})
+	return s.rec(Call{Op: 'W', ID: f.Status.FrameCount, Sum: SumPix(f.Pix), Err: s.fail('W'), St: f.Status})
 }
 
 func (s *Sink) StopRecording() error {
